@@ -60,8 +60,23 @@ def n_cases(intr):
                     yield "N/%s/%s/s%d-a%d-c%d" % (intr, dname, si, ai, ci), prog
 
 
+def k_cases(lo, hi):
+    """layer K: the keyword-prefixed identifiers and statement forms of props/C17.py
+    (Fortran has no reserved words), here under the round-trip oracle"""
+    from props import C17
+
+    for n in C17.k_names()[lo:hi]:
+        for fname, form in C17.K_FORMS:
+            spec = [G.S("integer :: %s, a" % n, "decl"), G.S("integer, target :: %sv(10)" % n, "decl"), G.S("integer, pointer :: %sp(:)" % n, "decl")]
+            execs = [G.S(t % {"n": n}, "stmt") for t in form]
+            yield "K/%s/%s" % (fname, n), G.sub_wrap(spec=spec, execs=execs, name="sub", args="()")
+
+
 def plan(tier, seed):
-    return scenarios.tasks(tier) + [("N", i) for i in N_INTRINSICS]
+    from props import C17
+
+    nk = len(C17.k_names())
+    return scenarios.tasks(tier) + [("N", i) for i in N_INTRINSICS] + [("K", lo, min(nk, lo + 16)) for lo in range(0, nk, 16)]
 
 
 def roundtrip(src, std, ic):
@@ -120,13 +135,13 @@ def feature_tag(cid):
 def run(task):
     res = Result()
     last = None
-    if task[0] == "N":
-        for cid, prog in n_cases(task[1]):
+    if task[0] in ("N", "K"):
+        for cid, prog in n_cases(task[1]) if task[0] == "N" else k_cases(task[1], task[2]):
             check_case(res, cid, prog, feature_tag(cid))
             res.transitions += 1
             if res.evals % 200 == 1:
                 res.sample({"case": cid, "source": G.render(prog)})
-        res.counters["layer_N_cases"] += res.evals
+        res.counters["layer_%s_cases" % task[0]] += res.evals
         return res
     for cid, vec, prog, stats in scenarios.cases(task):
         check_case(res, cid, prog, feature_tag(cid))
